@@ -139,7 +139,13 @@ func main() {
 		fmt.Println(fe.serialize())
 		return
 	}
+	tPhase := time.Now()
+	phase := func(name string) {
+		r.Extra("seconds_"+name, float64(int(time.Since(tPhase).Seconds()*10))/10)
+		tPhase = time.Now()
+	}
 	tc, err := setupToolchain(r.Repo)
+	phase("toolchain")
 	if err != nil {
 		r.Note("toolchain: " + err.Error())
 		r.Fail("toolchain", "cannot build wuffs-c / base from the working tree: "+firstLines(err.Error(), 12), "")
@@ -159,10 +165,14 @@ func main() {
 	}
 
 	shapeCheck(r, tc)
+	phase("shape")
 	exprTreeCheck(r, tc)
+	phase("exprtree")
 	iterateCheck(r, tc)
 	iterateJumpCheck(r, tc)
+	phase("iterate")
 	runExec(r, tc)
+	phase("exec")
 
 	r.Finish("programs: one struct + 2-5 methods over u8/u16/u32/u64 (refined or not), bool, arrays, consts; all " +
 		"operators incl. ~mod/~sat, as, op-assign, if/else-if, (labelled) while/break/continue, calls; range-directed so " +
